@@ -216,6 +216,17 @@ def _chunk(payload):
                  "r = {{ #{c} = a }}", "r = {{ #t{c} = a }}", "r = {{ a }} //{c}", "r = {{ a }} /*{c}*/", "r = {{ a }} /*{c}", "//!{c}\nr = {{ a }}", "///{c}\nr = {{ a }}", "r ={c} {{ a }}", "r = {c}{{ a }}", 'r = {{ ^"{c}" }}',
                  'r = {{ PUSH_LITERAL("{c}") }}', "r = {{ a ~{c} b }}", "r = {{ a{c}b }}", "{c}", "r = {{ a }}{c}", 'r = {{ "a{c}', "r = {{ 'a'..'{c}' }}"]
         return check_texts([t.format(c=c) for t in sites for c in chars], "odd-characters")
+    if kind == "ranges":
+        # every character range over a set of bounds that mean something to a regular expression or to the grammar syntax,
+        # forwards and reversed (a reversed range is valid and never matches), alone and inside a choice the optimizer merges
+        bounds = ["!", "#", "$", "&", "(", ")", "*", "+", ",", "-", ".", "/", "0", "9", ":", "?", "@", "A", "Z", "[", "\\\\", "]", "^", "_", "`", "a", "z", "{", "|", "}", "~", " ", "\\'", "\"", "\\x7f", "\\u{e9}", "\\u{10FFFF}", "\\0"]
+        texts = []
+        for a in bounds:
+            for b in bounds:
+                texts.append(f"r = {{ '{a}'..'{b}' }}")
+                if (len(a) + len(b)) % 2 == 0:
+                    texts.append(f"r = {{ '{a}'..'{b}' | \"x\" | 'c'..'e' }}")
+        return check_texts(texts, "ranges")
     if kind == "huge-counts":
         texts = ['a = { "x"{99999999999999999999} }', 'a = { "x"{4294967296} }', 'a = { "x"{,4294967296} }', 'a = { "x"{4294967296,} }', 'a = { "x"{1,4294967296} }']
         return check_texts(texts, "huge-counts", loader=load_limited)
@@ -225,7 +236,7 @@ def _chunk(payload):
 def run(tier: str) -> int:
     b = BOUNDS[tier]
     rep = common.Report("C11", tier, "fault_enumeration")
-    payloads = [("escapes",), ("semantic",), ("huge-counts",), ("long-numbers",), ("odd-characters",)]
+    payloads = [("escapes",), ("semantic",), ("huge-counts",), ("long-numbers",), ("odd-characters",), ("ranges",)]
     for i in range(0, len(PUMP_UNITS), 3):
         payloads.append(("pumped", PUMP_UNITS[i:i + 3], [], PUMP_COUNTS[tier]))
     for oc in PUMP_CLOSERS:
@@ -292,7 +303,7 @@ def run(tier: str) -> int:
                 "(d) escape forms: \\x with 0-3 digits, \\u{..} with 0-7 digits, unterminated forms, values above U+10FFFF, surrogates, reversed ranges; (e) texts that are syntactically fine but semantically odd (undefined/duplicate/recursive rules, {0}, huge counts, deep nesting). "
                 f"(f) pumped texts: {len(PUMP_UNITS)} units (every token, openers, unterminated literal / comment / escape starts) repeated {PUMP_COUNTS[tier]} times bare, inside a rule body and around a valid rule; {len(PUMP_CLOSERS)} nested opener/closer pairs; "
                 f"{len(PUMP_POSTFIX)} postfix operator / operator-operand units chained after one operand - each load in a forked child with a 25 s deadline and a 1 GiB address space; "
-                "(g) long numbers: 1 to 20000 digits at every repetition bound (optimizer=None) and PEEK slice bound; (h) odd characters: 22 characters (lone surrogates, NUL, C1 and Unicode line separators, BOM, non-characters, "
+                "(g0) ranges: every character range over 38 bounds (regex metacharacters, grammar punctuation, digits, letters, escapes, U+10FFFF), forwards and reversed, alone and inside a choice the optimizer merges; (g) long numbers: 1 to 20000 digits at every repetition bound (optimizer=None) and PEEK slice bound; (h) odd characters: 22 characters (lone surrogates, NUL, C1 and Unicode line separators, BOM, non-characters, "
                 "non-ASCII digits and letters with special case mappings) at 35 places of a grammar text. "
                 "Each text is loaded with optimizer=None and with the default optimizer. Oracle: a Parser or PestGrammarError; str(error) renders; a shown 'L:C' has 1 <= L <= number of lines and 0 <= C <= len(line)+1; 20 s watchdog. "
                 "distinct_nontrivial counts the texts that were accepted (the rest were rejected with a grammar error)",
